@@ -799,5 +799,6 @@ func Run(c *hx.Ctx) {
 	for i := 0; i < c.N(3000, 40000); i++ {
 		randomCase(c)
 	}
+	snapshotCases(c)
 	concurrent(c)
 }
